@@ -73,6 +73,9 @@ REPL_NAMES += ["array nested %d deep" % DEEP, "dictionary nested %d deep" % DEEP
 DEEP_R = (len(REPL) - 2, len(REPL) - 1)
 REPL += [2 ** 31 - 1]
 REPL_NAMES += ["2^31-1"]
+# reals of 400 digits: read as +-infinity
+REPL += [W.Real("9" * 400 + "."), W.Real("-" + "9" * 400 + ".")]
+REPL_NAMES += ["real of 400 digits (+inf)", "real of 400 digits (-inf)"]
 TRAILER_REPL += REPL[16:]
 TRAILER_REPL_NAMES = REPL_NAMES[:16] + ["own startxref offset", "7"] + REPL_NAMES[16:]
 # (appended after everything else so that the indices in pinned replays stay valid)
